@@ -9,3 +9,50 @@ Open Scope string_scope. Open Scope list_scope.
 
 Lemma tie_policy_markers : [kex_strict_c; kex_strict_s] = src_policy_markers.
 Proof. reflexivity. Qed.
+
+(* T1c: every decision of Policy.evaluate() as it reads now - the three size comparisons, the strict-KEX marker condition, the five exact comparisons, the shape of
+   the four subset loops, the pruning of optional host keys, the "a CA is specified" condition - translated from the current source and equal to the expressions the
+   model's chk_* functions use; and the error labels of the source, in source order, are the labels of the model's blocks in the order evaluate_from applies them. *)
+Lemma tie_size_bad : forall larger a e,
+  size_bad larger a e = src_policy_size_bad_0 larger a e /\ size_bad larger a e = src_policy_size_bad_1 larger a e /\ size_bad larger a e = src_policy_size_bad_2 larger a e.
+Proof. intros. repeat split; reflexivity. Qed.
+Lemma tie_marker_missing : forall k peer,
+  ((mem kex_strict_s k && negb (mem kex_strict_s peer)) || (mem kex_strict_c k && negb (mem kex_strict_c peer))) = src_policy_marker_missing k peer.
+Proof. reflexivity. Qed.
+Lemma tie_exact_differs : forall a l,
+  negb (strs_eqb a l) = src_policy_exact_differs_0 a l /\ negb (strs_eqb a l) = src_policy_exact_differs_1 a l /\ negb (strs_eqb a l) = src_policy_exact_differs_2 a l
+  /\ negb (strs_eqb a l) = src_policy_exact_differs_3 a l /\ negb (strs_eqb a l) = src_policy_exact_differs_4 a l.
+Proof. intros. repeat split; reflexivity. Qed.
+Lemma tie_not_all_in : forall a l, not_all_in a l = src_policy_not_all_in a l.
+Proof. reflexivity. Qed.
+Lemma tie_pruned : forall p pr o, p_optional_host_keys p = Some o -> pruned_host_keys p pr = src_policy_pruned (pr_key pr) o.
+Proof. intros p pr o H. unfold pruned_host_keys. rewrite H. reflexivity. Qed.
+Lemma tie_ca_specified : forall t sz, (negb (String.eqb t "") && (0 <? sz))%Z = src_policy_ca_specified t sz.
+Proof.
+  intros t sz. unfold src_policy_ca_specified. rewrite !Z.gtb_ltb. f_equal.
+  destruct t as [|a r]; [reflexivity|]. cbn [String.eqb String.length negb]. symmetry. apply Z.ltb_lt. lia.
+Qed.
+(* the labels: one error per failing block; running the model on a policy and a peer that disagree in every block yields the labels of the source in source order
+   (blocks with two sites for one label - exact / subset - contribute the label once per run, so the source list is compared after removing adjacent repetitions) *)
+Fixpoint dedup_adj (l : list string) : list string :=
+  match l with
+  | a :: ((b :: _) as r) => if String.eqb a b then dedup_adj r else a :: dedup_adj r
+  | _ => l
+  end.
+Definition label_template (s : string) : string :=
+  (* "Host key (ssh-rsa) sizes" -> "Host key (%s) sizes" : replace the text between the parentheses *)
+  match index 0 "(" s, index 0 ")" s with
+  | Some i, Some j => String.append (substring 0 (S i) s) (String.append "%s" (substring j (String.length s - j) s))
+  | _, _ => s
+  end.
+Definition all_wrong_policy : policy :=
+  {| p_name := None; p_version := None; p_banner := Some "B"; p_compressions := Some ["c"]; p_host_keys := Some ["h"]; p_optional_host_keys := None; p_kex := Some ["k"]; p_ciphers := Some ["e"]; p_macs := Some ["m"];
+     p_hostkey_sizes := Some [("t", {| hk_size := 1; hk_ca_type := "ca"; hk_ca_size := 1 |}); ("u", {| hk_size := 2; hk_ca_type := "ca"; hk_ca_size := 1 |})];
+     p_dh_modulus_sizes := Some [("g", 1%Z)]; p_server_policy := true; p_subset := false; p_larger := false |}.
+Definition all_wrong_peer : peer :=
+  {| pr_banner := "X"; pr_compression := ["x"]; pr_kex := ["x"]; pr_key := ["x"]; pr_enc := ["x"]; pr_mac := ["x"];
+     pr_host_keys := [("t", {| hk_size := 2; hk_ca_type := "other"; hk_ca_size := 1 |}); ("u", {| hk_size := 2; hk_ca_type := "ca"; hk_ca_size := 2 |})];
+     pr_dh_modulus_sizes := [("g", 2%Z)] |}.
+Lemma tie_error_labels :
+  map label_template (map e_field (snd (evaluate all_wrong_policy all_wrong_peer))) = dedup_adj src_policy_error_labels.
+Proof. vm_compute. reflexivity. Qed.
